@@ -84,6 +84,12 @@ def mc_configs(tier):
     return c
 
 
+# actions every exhaustive run must take at least once (per configuration family): vacuity guard
+MUST_COVER = {"MC_small": ["ProxyRegister", "OfferRendezvous", "WaiterForward", "WaiterTimerFire", "WaiterTimeoutLocked", "ProxyRespond",
+                           "ClientMatch", "AnswerSend", "ClientGetAnswer", "ClientTimerFire", "ClientCleanup", "AnswerLookup", "Tick"],
+              "MC_repoll": ["ProxyRepoll", "WaiterTimeoutLocked", "ClientCleanup"]}
+
+
 def model_check(chk, tier, only=None):
     """Exhaustive TLC runs.  A violation here is a defect of the model or a
     candidate defect of the code; it is never a verdict by itself."""
@@ -91,8 +97,15 @@ def model_check(chk, tier, only=None):
     for name, text in mc_configs(tier).items():
         if only and name not in only:
             continue
-        r = vlib.tlc(SPECDIR, "Broker", name + ".cfg", files={name + ".cfg": text}, timeout=2400, keep_prints=False)
+        cover = name in MUST_COVER
+        r = vlib.tlc(SPECDIR, "Broker", name + ".cfg", files={name + ".cfg": text}, timeout=2400, keep_prints=False, coverage=cover)
         chk.add_tlc(r)
+        if cover and not r.error:
+            zero = [a for a in MUST_COVER[name] if r.coverage.get(a, (0, 0))[1] == 0]
+            chk.cov.setdefault("coverage_zero_actions", {})[name] = zero
+            if zero:
+                ok = False
+                chk.fail("vacuity: %s never takes %s" % (name, zero))
         chk.note("TLC %s: %d distinct states, %d generated, error=%s (%.0fs)" % (name, r.distinct, r.generated, r.error, r.wall))
         if r.error and os.environ.get("VERIF_BROKER_ASIS") == "1":
             chk.note("as-is model (pinned code): %s violates %s, as expected; continuing with replay" % (name, r.error))
